@@ -60,6 +60,23 @@ pub fn load_replay(path: &str) -> serde_json::Value {
     serde_json::from_str(&s).unwrap_or_else(|e| crate::engine::fault(&format!("replay file {path}: {e}")))
 }
 
+/// a replay file is either one of our JSON files or a raw input saved by libFuzzer (crash-*)
+pub fn load_replay_any(path: &str) -> serde_json::Value {
+    let b = std::fs::read(path).unwrap_or_else(|e| crate::engine::fault(&format!("replay file {path}: {e}")));
+    if let Ok(s) = std::str::from_utf8(&b) {
+        if let Ok(j) = serde_json::from_str::<serde_json::Value>(s) {
+            if j.get("case").is_some() || j.get("tape").is_some() {
+                return j;
+            }
+        }
+    }
+    serde_json::json!({"raw": true, "case": {"bytes": b, "text": std::str::from_utf8(&b).ok(), "string": std::str::from_utf8(&b).ok()}})
+}
+
+pub fn case_bytes(j: &serde_json::Value) -> Option<Vec<u8>> {
+    j["case"]["bytes"].as_array().map(|a| a.iter().map(|v| v.as_u64().unwrap_or(0) as u8).collect())
+}
+
 pub fn replay_tape(j: &serde_json::Value) -> Vec<u32> {
     j["tape"].as_array().map(|a| a.iter().map(|v| v.as_u64().unwrap_or(0) as u32).collect()).unwrap_or_default()
 }
